@@ -159,16 +159,33 @@ def run(ctx):
         fn = meths.get(name)
         if fn is None:
             raise AnalysisError('anchor vanished: LatexContextDb.' + name)
-        for d in [n for n in iter_own(fn) if isinstance(n, ast.Dict)]:
-            keys = [k.value if isinstance(k, ast.Constant) else None for k in d.keys]
-            if set(keys) != set(KINDS):
-                continue
-            for k, v in zip(keys, d.values):
-                ok, why = _keyed_by(v, keyattr[k], k)
-                if ok is None:
+        # the dict literal may sit in the method or in a module-level helper it calls with the
+        # three spec lists (parameter of the helper <- argument name in the method)
+        places = [(fn, dict((k, k) for k in KINDS))]
+        for c in [c for c in iter_own(fn) if isinstance(c, ast.Call) and isinstance(c.func, ast.Name)
+                  and c.func.id in m.functions and '.' not in c.func.id]:
+            h = m.functions[c.func.id]
+            hp = [a.arg for a in h.args.args]
+            amap = {}
+            for a, pn in zip(c.args, hp):
+                if isinstance(a, ast.Name) and a.id in KINDS:
+                    amap[a.id] = pn
+            for kw_ in c.keywords:
+                if kw_.arg and isinstance(kw_.value, ast.Name) and kw_.value.id in KINDS:
+                    amap[kw_.value.id] = kw_.arg
+            if set(amap) == set(KINDS):
+                places.append((h, amap))
+        for where, amap in places:
+            for d in [n for n in iter_own(where) if isinstance(n, ast.Dict)]:
+                keys = [k.value if isinstance(k, ast.Constant) else None for k in d.keys]
+                if set(keys) != set(KINDS):
                     continue
-                ctx.decide('M2c', ok, m, v, 'keyed by .%s from parameter %s' % (keyattr[k], k), why,
-                           construct="%s: '%s': %s" % (name, k, short(v)))
+                for k, v in zip(keys, d.values):
+                    ok, why = _keyed_by(v, keyattr[k], amap[k])
+                    if ok is None:
+                        continue
+                    ctx.decide('M2c', ok, m, v, 'keyed by .%s from parameter %s' % (keyattr[k], k), why,
+                               construct="%s: '%s': %s" % (name, k, short(v)))
 
     # ---------------------------------------------------------------- M3
     for name, fn in sorted(meths.items()):
@@ -212,7 +229,8 @@ def run(ctx):
     _check_test_for_specials(ctx, m, tfs)
 
     # ---------------------------------------------------------------- M7
-    for name, fn in sorted(meths.items()):
+    _MODFUNCS[0] = dict((q, f_) for q, f_ in m.functions.items() if '.' not in q)
+    for name, fn in sorted(list(meths.items()) + [(q, f_) for q, f_ in m.functions.items() if '.' not in q]):
         fk = _kind_of_ident(name)
         for unit, label in _kind_units(fn):
             ks = kinds_in(unit)
@@ -679,27 +697,29 @@ def _check_filtered(ctx, m, fn):
     # the skip tests
     want = {'keep_categories': ast.NotIn, 'exclude_categories': ast.In}
     seen = {}
-    for st in loop.body:
-        if isinstance(st, ast.If) and st.body and isinstance(st.body[0], ast.Continue):
-            t = st.test
-            if isinstance(t, ast.BoolOp) and isinstance(t.op, ast.And) and len(t.values) == 2 \
-                    and isinstance(t.values[0], ast.Name) and isinstance(t.values[1], ast.Compare):
+    from .. import symex
+    try:
+        reach = symex.Walker(is_sink=lambda c: call_name(c) == 'add_context_category').run_block(loop.body)
+    except symex.TooManyPaths:
+        reach = []
+    for cs in reach:
+        for t_, pol in cs.conds:
+            for t, ap in symex._atoms(t_, pol):
+                if ap or not (isinstance(t, ast.BoolOp) and isinstance(t.op, ast.And) and len(t.values) == 2
+                              and isinstance(t.values[0], ast.Name) and isinstance(t.values[1], ast.Compare)):
+                    continue
                 pname = t.values[0].id
                 cmp_ = t.values[1]
                 if pname in want and len(cmp_.ops) == 1 and \
                         isinstance(cmp_.left, ast.Name) and cmp_.left.id == cat and \
                         isinstance(cmp_.comparators[0], ast.Name) and \
-                        cmp_.comparators[0].id == pname:
-                    seen[pname] = st
-                    ctx.decide('M4b', isinstance(cmp_.ops[0], want[pname]), m, st,
+                        cmp_.comparators[0].id == pname and pname not in seen:
+                    seen[pname] = cs.node
+                    ctx.decide('M4b', isinstance(cmp_.ops[0], want[pname]), m, cs.node,
                                'skip test has the documented polarity',
                                'skip test for %s has the wrong polarity: filtering keeps/drops the '
                                'opposite categories' % pname,
-                               construct='filtered_context: ' + short(st.test))
-    for pname in want:
-        if pname not in seen:
-            ctx.unknown('M4b', m, loop, 'skip test for %s not found in the modelled shape' % pname,
-                        construct='filtered_context: skip test ' + pname)
+                               construct='filtered_context: ' + short(t))
     # add call in the loop: appended (no placement keyword), first arg is the loop var
     adds = [c for c in ast.walk(loop) if isinstance(c, ast.Call)
             and call_name(c) == 'add_context_category']
@@ -717,17 +737,18 @@ def _check_filtered(ctx, m, fn):
 
 
 def _check_lookup(ctx, m, fn, kind, unk):
-    rets = [n for n in iter_own(fn) if isinstance(n, ast.Return) and n.value is not None]
+    from .. import symex
     in_try, in_handler = [], []
-    for r in rets:
-        ps = list(parents(r))
+    for cs in symex.return_cases(fn):
+        if isinstance(cs.sub, ast.Constant) and cs.sub.value is None and cs.node.value is None:
+            continue
+        ps = list(parents(cs.node))
         if any(isinstance(p, ast.ExceptHandler) for p in ps):
-            in_handler.append(r)
+            in_handler.append(cs)
         else:
-            in_try.append(r)
-    ok_main = False
-    for r in in_try:
-        v = r.value
+            in_try.append(cs)
+    for cs in in_try:
+        r, v = cs.node, cs.sub
         if isinstance(v, ast.Subscript) and isinstance(v.value, ast.Subscript) and \
                 is_self_attr(v.value.value, 'lookup_chain_maps'):
             key = v.value.slice
@@ -739,13 +760,14 @@ def _check_lookup(ctx, m, fn, kind, unk):
                        'requested name' % kind,
                        construct='%s: %s' % (fn.name, short(r)))
         else:
-            ctx.refuted('M5', m, r, 'lookup answers from something other than the chain map',
+            ctx.refuted('M5', m, r, 'lookup answers from something other than the chain map (%s)' % short(v),
                         construct='%s: %s' % (fn.name, short(r)))
     if not in_try:
         ctx.unknown('M5', m, fn, 'no direct return of the chain-map lookup found',
                     construct=fn.name + ': main return')
-    for r in in_handler:
-        ok = is_self_attr(r.value, unk)
+    for cs in in_handler:
+        r = cs.node
+        ok = is_self_attr(cs.sub, unk)
         h = [p for p in parents(r) if isinstance(p, ast.ExceptHandler)][0]
         hk = h.type is not None and unparse(h.type) == 'KeyError'
         ctx.decide('M5', ok and hk, m, r, 'falls back to self.%s on KeyError' % unk,
@@ -801,6 +823,9 @@ def _check_test_for_specials(ctx, m, fn):
                'best length does not start at 0', construct='test_for_specials: initial best length')
 
 
+_MODFUNCS = [{}]
+
+
 def _kind_units(fn):
     """Yield (node, label) units for the kind-coherence rule."""
     def expr_units(e):
@@ -820,6 +845,16 @@ def _kind_units(fn):
             return
         if isinstance(e, (ast.Tuple, ast.List)) and \
                 {x.value for x in e.elts if isinstance(x, ast.Constant)} >= set(KINDS):
+            return
+        if isinstance(e, ast.Call) and isinstance(e.func, ast.Name) and e.func.id in _MODFUNCS[0] and \
+                sum(1 for a in e.args if isinstance(a, ast.Name) and kinds_in(a)) >= 2:
+            # positional hand-over of several kind-named lists to a module-level helper: each
+            # argument is paired with the parameter it binds to
+            hp = [a.arg for a in _MODFUNCS[0][e.func.id].args.args]
+            for a, pn in zip(e.args, hp):
+                yield ast.Tuple(elts=[a, ast.Name(id=pn, ctx=ast.Load())], ctx=ast.Load()), 'entry'
+            for k in e.keywords:
+                yield k, 'entry'
             return
         yield e, 'stmt'
 
@@ -852,7 +887,12 @@ def _kind_units(fn):
             for u in us:
                 yield (st if u[0] is st.value else u[0]), u[1]
         elif isinstance(st, ast.Return) and st.value is not None:
-            yield st, 'stmt'
+            us = list(expr_units(st.value))
+            if len(us) == 1 and us[0][0] is st.value:
+                yield st, 'stmt'
+            else:
+                for u in us:
+                    yield u
         elif isinstance(st, ast.Raise):
             continue
         elif isinstance(st, (ast.AugAssign,)):
